@@ -235,6 +235,7 @@ func checkC08(c *Ctx) {
 	c08CloseAlwaysCloses(c)
 	c08NoLockAcrossWait(c, cfns)
 	c08StopBeforeJoin(c)
+	c08GoroutineScope(c)
 	c08Loops(c, cfns)
 	c08SingleCloser(c, cfns)
 	c08TablePair(c)
@@ -1279,5 +1280,99 @@ func c08StopBeforeJoin(c *Ctx) {
 	}
 	if n == 0 {
 		c.R.Hold("R-stop-before-join", "no function both stops (by closing a channel) and joins goroutines", "", "")
+	}
+}
+
+// ---------------------------------------------------------------- R-goroutine-scope
+// A function that derives a cancellable context and cancels it when it returns (`ctx, cancel := context.WithCancel(p);
+// defer cancel()`) scopes what it starts to its own lifetime — the connection it serves. A goroutine it starts must be
+// handed that derived context; one started with the parent `p` (for instance because the `go` statement sits above the
+// WithCancel line) outlives the function: on the stdio server the outgoing pump survives the peer's disconnect.
+func c08GoroutineScope(c *Ctx) {
+	n := 0
+	for _, fn := range c.P.LibFns {
+		// derived contexts whose cancel is deferred in fn
+		type scope struct {
+			derived ssa.Value
+			parent  ssa.Value
+		}
+		var scopes []scope
+		ir.EachInstr(fn, func(_ *ssa.BasicBlock, _ int, in ssa.Instruction) {
+			call, ok := in.(*ssa.Call)
+			if !ok || !strings.HasPrefix(ir.CallName(call), "context.With") || call.Referrers() == nil {
+				return
+			}
+			var e0, e1 ssa.Value
+			for _, r := range *call.Referrers() {
+				if ex, ok := r.(*ssa.Extract); ok {
+					if ex.Index == 0 {
+						e0 = ex
+					} else {
+						e1 = ex
+					}
+				}
+			}
+			if e0 == nil || e1 == nil || e1.Referrers() == nil {
+				return
+			}
+			deferred := false
+			for _, r := range *e1.Referrers() {
+				if d, ok := r.(*ssa.Defer); ok && d.Call.Value == e1 {
+					deferred = true
+				}
+				// spilled to a cell that a deferred closure calls
+				if st, ok := r.(*ssa.Store); ok {
+					if al, ok := st.Addr.(*ssa.Alloc); ok && al.Referrers() != nil {
+						for _, ar := range *al.Referrers() {
+							if u, ok := ar.(*ssa.UnOp); ok && u.Referrers() != nil {
+								for _, ur := range *u.Referrers() {
+									if d, ok := ur.(*ssa.Defer); ok && d.Call.Value == ssa.Value(u) {
+										deferred = true
+									}
+								}
+							}
+						}
+					}
+				}
+			}
+			if deferred && len(call.Call.Args) > 0 {
+				scopes = append(scopes, scope{e0, unspill(call.Call.Args[0])})
+			}
+		})
+		if len(scopes) == 0 {
+			continue
+		}
+		ir.EachInstr(fn, func(_ *ssa.BasicBlock, _ int, in ssa.Instruction) {
+			g, ok := in.(*ssa.Go)
+			if !ok {
+				return
+			}
+			args := append([]ssa.Value{}, g.Call.Args...)
+			if mc, ok := g.Call.Value.(*ssa.MakeClosure); ok {
+				args = append(args, mc.Bindings...)
+			}
+			for _, a := range args {
+				if ir.TypeStr(a.Type()) != "context.Context" && ir.TypeStr(a.Type()) != "*context.Context" {
+					continue
+				}
+				av := unspill(a)
+				for _, sc := range scopes {
+					n++
+					isParent := av == sc.parent
+					// a captured cell holding the parent at the time of the go statement: the cell is the parameter's
+					if al, ok := a.(*ssa.Alloc); ok {
+						if p, ok := sc.parent.(*ssa.UnOp); ok && p.X == ssa.Value(al) {
+							isParent = true
+						}
+					}
+					c.R.Check(!isParent, "R-goroutine-scope", sprintf("context of the goroutine started in %s", fname(fn)), c.Pos(g.Pos()),
+						"the goroutine gets the context this function cancels on return",
+						sprintf("%s derives a context that it cancels when it returns, but starts a goroutine with the parent of that context: the goroutine is not stopped when the function ends (the connection is gone) and lives as long as the caller's context — forever under context.Background()", fname(fn)))
+				}
+			}
+		})
+	}
+	if n == 0 {
+		c.R.Hold("R-goroutine-scope", "goroutines started by functions that scope a context to their own lifetime", "", "no function both defers the cancel of a derived context and starts a goroutine with a context (the scoping functions hand the derived context to what they call)")
 	}
 }
